@@ -4,6 +4,8 @@ SPECIFICATION Spec
 CONSTANTS NReq = 4
           MaxSet = {1, 2, 3}
           DoneOnFailedStart = FALSE
+          WithLimits = TRUE
+          CaseLenReject = 5
           CaseLen = 6
           CaseReq = 4
           CaseMaxSet = {1, 2}
